@@ -5,6 +5,11 @@ import verif as V
 # (source name, kind, extra flags) of everything --setup builds
 HARNESSES = [
     ("c01", "rcfork", ()),
+    ("c03", "rcfork", ()),
+    ("c04", "rcfork", ()),
+    ("fz_bitmap_hwloc", "fuzz", ("-DFMT=0",), "fz_bitmap"),
+    ("fz_bitmap_list", "fuzz", ("-DFMT=1",), "fz_bitmap"),
+    ("fz_bitmap_taskset", "fuzz", ("-DFMT=2",), "fz_bitmap"),
 ]
 
 
@@ -13,9 +18,9 @@ def all_harnesses():
 
 
 def hbin(name):
-    for n, k, f in HARNESSES:
-        if n == name:
-            return V.ensure_harness(n, k, f)
+    for h in HARNESSES:
+        if h[0] == name:
+            return V.ensure_harness(*h)
     raise SystemExit("harness %s not registered" % name)
 
 
@@ -56,11 +61,42 @@ def replay_one(ctx, path):
 
 
 # engine cfg.name -> source file name
-ALIASES = {"c01_load": "c01"}
+ALIASES = {"c01_load": "c01", "c03_bitmap": "c03", "c04_strings": "c04"}
 
 
 def C01(ctx):
     std_check(ctx, [dict(harness="c01", aliases=["c01_load"], cases=(1000, 12000), max_ops=1)])
 
 
-PROPS = {"C01": C01}
+def C03(ctx):
+    std_check(ctx, [dict(harness="c03", aliases=["c03_bitmap"], cases=(500, 15000), max_ops=24)])
+
+
+def run_fuzz_targets(ctx, targets):
+    """run several libFuzzer targets side by side, splitting the cores"""
+    from concurrent.futures import ThreadPoolExecutor
+    for i, t in enumerate(targets):
+        t["bin"] = hbin(t["name"])
+        t["seconds"] = ctx.pick(*t["seconds"])
+        t["workers"] = ctx.pick(*t["workers"])
+        t.setdefault("seed_offset", 50 + i)
+        if not ctx.quick():
+            t["empty_corpus_workers"] = t["workers"] // 2   # thorough: both an empty and a seeded corpus (DESIGN 2.2)
+    with ThreadPoolExecutor(len(targets)) as ex:
+        list(ex.map(lambda t: V.run_fuzz(ctx, t), targets))
+
+
+def C04(ctx):
+    std_check(ctx, [dict(harness="c04", aliases=["c04_strings"], cases=(2200, 40000), max_ops=10)])
+    rule = "libFuzzer bytes -> NUL-terminated string parsed from an exactly-sized heap block into fresh/dirty/full destinations; non-trivial = accepted by the parser (distinct accepted inputs counted in-target)"
+    run_fuzz_targets(ctx, [
+        dict(name="fz_bitmap_hwloc", seconds=(20, 600), workers=(5, 5), max_len=256, rule=rule,
+             seeds=[b"0xffffffff,0x00000006,0x00000002", b"0xf...f,0x0000ffff", b"0x0", b"0xf...f", b"0x1,0x0,0x0"]),
+        dict(name="fz_bitmap_list", seconds=(20, 600), workers=(5, 5), max_len=256, rule=rule,
+             seeds=[b"1,33-34,64-95", b"0-", b"2,4-5,7-", b"", b"0x10-0x20"]),
+        dict(name="fz_bitmap_taskset", seconds=(20, 600), workers=(5, 5), max_len=256, rule=rule,
+             seeds=[b"0xffffffff0000000600000002", b"0xf...f", b"0xf...f0000ffff", b"0x0", b"ff"]),
+    ])
+
+
+PROPS = {"C01": C01, "C03": C03, "C04": C04}
